@@ -24,14 +24,20 @@ def one(mid, tier, props=None):
 def main():
     ap = argparse.ArgumentParser(); ap.add_argument("--only", default=""); ap.add_argument("--tier", default="quick"); ap.add_argument("--jobs", type=int, default=3)
     a = ap.parse_args()
-    ids = sorted(d for d in os.listdir(f"{V}/seeded") if os.path.isdir(f"{V}/seeded/{d}") and a.only in d)
+    ids = sorted(d for d in os.listdir(f"{V}/seeded") if os.path.isfile(f"{V}/seeded/{d}/meta.json") and a.only in d)
     res = []
     with cf.ThreadPoolExecutor(a.jobs) as ex:
         for r in ex.map(lambda m: one(m, a.tier), ids):
             res.append(r)
             pid = [k for k in r if k != "id"][0]
             print(r["id"], "exit", r[pid]["exit"], "viol", r[pid]["violations"], "with_input", r[pid]["with_input"], "undecided", r[pid]["undecided"], flush=True)
-    path = f"{V}/seeded/matrix_{a.tier}.json"
+            _save(a.tier, res)      # incrementally: a crash or an interrupt keeps what was observed so far
+
+    _save(a.tier, res)
+
+
+def _save(tier, res):
+    path = f"{V}/seeded/matrix_{tier}.json"
     merged = {}
     if os.path.exists(path):
         merged = {r["id"]: r for r in json.load(open(path))}       # partial runs (--only) update their entries only
